@@ -306,6 +306,8 @@ type Program struct {
 	PkgVars []string `json:"pkg_vars,omitempty"` // raw declarations put in pkg 0's decl file
 	// PkgIdents: identifiers declared by PkgVars (so the renderer avoids them as import names).
 	PkgIdents []string `json:"pkg_idents,omitempty"`
+	// RawDriver: an Extra file provides func Scenarios() for pkg 0.
+	RawDriver bool `json:"raw_driver,omitempty"`
 	// RejectOK: rejection with a diagnostic is as acceptable as compilable output.
 	RejectOK bool `json:"reject_ok,omitempty"`
 }
@@ -348,7 +350,7 @@ func (p *Program) AddSet(s *Set) *Set {
 
 // Clone deep-copies a program (decl pointers are re-linked).
 func (p *Program) Clone() *Program {
-	q := &Program{ID: p.ID, Module: p.Module, Note: p.Note, RejectOK: p.RejectOK}
+	q := &Program{ID: p.ID, Module: p.Module, Note: p.Note, RejectOK: p.RejectOK, RawDriver: p.RawDriver}
 	for _, k := range p.Pkgs {
 		c := *k
 		q.Pkgs = append(q.Pkgs, &c)
